@@ -10,5 +10,5 @@ rsync -a --exclude .git /repo/ "$S/repo/"
 export VERIF_DIR="$S/verif"; mkdir -p "$VERIF_DIR/.build"
 cp -r /verif/harness /verif/bin /verif/overlay /verif/known_findings.jsonl "$VERIF_DIR/" 2>/dev/null
 out=$(VERIF_REPO="$S/repo" timeout 3600 "$VERIF_DIR/bin/vcheck" "$id" --tier "$tier" 2>&1); rc=$?
-echo "$out" | grep -E "^VIOLATION|^KNOWN-FINDING|^$id tier|BUILD FAILED" | cut -c1-400 | head -8
+echo "$out" | grep -E "^VIOLATION|^$id tier|BUILD FAILED" | cut -c1-400 | head -8
 echo "exit=$rc  ($(echo "$out" | grep -c '^VIOLATION') violation lines)"
